@@ -1296,6 +1296,38 @@ fn c20_extra(_tier: Tier, _seed: u64, ctx: &mut Ctx) -> Result<bool, Violation> 
     ctx.enumerated += 1;
     out.map_err(|reason| Violation { case: stand_in.clone(), reason })?;
 
+    // Same size class through the AUTOMATIC kind: at most 100 patterns (and a
+    // start kind other than Both) make the builder try a DFA first; 8.64
+    // million trie states x 256 classes exceed the DFA's state-id space; when the DFA cannot be built the documented
+    // fallback chain must hand back a working searcher, not the DFA's error.
+    {
+        let mut sd = 0x2545f4914f6cdd1du64;
+        let patterns: Vec<Vec<u8>> = (0..96).map(|_| lcg_bytes(&mut sd, 90_000, &full)).collect();
+        let cfg = Cfg { engine: Engine::TopAuto, mk: Mk::LeftmostFirst, sk: Sk::Unanchored, prefilter: true, dense_depth: 2, byte_classes: false, casei: false };
+        let stand_in = Case { prop: "C20".into(), sub: "scenario:auto-kind-beyond-dfa-limit (96 x 90000 random bytes)".into(), cfg: cfg.clone(), ..Case::default() };
+        ctx.begin();
+        let r = Searcher::build(&cfg, &patterns);
+        ctx.nontrivial();
+        ctx.end(&stand_in);
+        ctx.enumerated += 1;
+        match r {
+            Err(e) => return Err(Violation { case: stand_in, reason: format!("a legal collection (96 patterns x 90000 bytes, automatic kind) failed to build: {}", e) }),
+            Ok(s) => {
+                if s.patterns_len() != 96 || s.max_pattern_len() != 90_000 || s.min_pattern_len() != 90_000 {
+                    return Err(Violation { case: stand_in, reason: "metadata of the 96 x 90000 collection is wrong".into() });
+                }
+                let mut h = b"..".to_vec();
+                h.extend_from_slice(&patterns[5]);
+                let got = guard(|| s.try_find(input(&h, (0, h.len()), false, false)));
+                let want = Some(M { pat: 5, start: 2, end: 90_002 });
+                if !matches!(&got, Ok(Ok(g)) if *g == want) {
+                    return Err(Violation { case: stand_in, reason: format!("96 x 90000 collection: expected {:?}, got {:?}", want, got.map(|r| r.map_err(|e| e.to_string()))) });
+                }
+                ctx.class("scenario:auto-kind-fallback-built");
+            }
+        }
+    }
+
     // Second scenario: a legal collection whose contiguous encoding is large
     // (300 x 230 random bytes, every state dense, byte classes off: about
     // 18 million 32-bit words). Explicitly requested kinds must build.
